@@ -1199,7 +1199,12 @@ func (p *Parser) parsePropertyName(in string) (propertyName PropertyName) {
 		if isIdent := AsIdentifierName(p.data[1 : len(p.data)-1]); isIdent {
 			propertyName.Literal = LiteralExpr{IdentifierToken, p.data[1 : len(p.data)-1]}
 		} else if isNum := AsDecimalLiteral(p.data[1 : len(p.data)-1]); isNum {
-			propertyName.Literal = LiteralExpr{DecimalToken, p.data[1 : len(p.data)-1]}
+			// same token type as the lexer gives the number when it is written without quotes
+			tt := IntegerToken
+			if bytes.IndexByte(p.data, '.') != -1 {
+				tt = DecimalToken
+			}
+			propertyName.Literal = LiteralExpr{tt, p.data[1 : len(p.data)-1]}
 		} else {
 			propertyName.Literal = LiteralExpr{p.tt, p.data}
 		}
